@@ -8,7 +8,7 @@ IDLE/CONNECTING/READY/TRANSIENT_FAILURE/other, also from stopped or removed chil
 expirations, cache expirations and passages of time, in any order.
 "usable" = READY, IDLE, or CONNECTING with its init timer still armed (`usable`).
 -/
-import GrpcProofs.Lemmas.PriorityC
+import GrpcProofs.Lemmas.PriorityD
 namespace GrpcProofs.C39
 open GrpcModel.Priority GrpcProofs.Lemmas.Priority
 
@@ -160,6 +160,53 @@ theorem stopped_child_is_cached_or_closed {s : St} (hr : Reach s) {c : Child} (h
   have : c' = c := eq_of_nodup_names (reach_good hr).st.cn hc' hc hcn
   subst this
   rw [hs] at hcs; cases hcs
+
+/-! ### the window between an init timer firing and its callback running
+
+`dispatch n`: the timer of child n has reached its deadline, the callback goroutine exists and
+waits for the balancer's mutex; `runcb`: the oldest waiting callback runs.  In between the child may
+report READY/IDLE/TF (the timer is stopped) and CONNECTING again (a NEW timer is armed). -/
+
+/-- A callback waits only for a timer whose deadline has passed. -/
+theorem callbacks_wait_only_after_deadline {s : St} (hr : Reach s) : ∀ p ∈ s.pending, p.2 ≤ s.now :=
+  reach_pendOK hr
+
+/-- The callback of a timer that has been stopped (the child's current timer is not the one it
+    belongs to, or the child is gone) does nothing: it does not clear the child's new timer and
+    does not re-sync, so the child keeps its whole (new) initial connection timeout. -/
+theorem stale_callback_is_noop (s : St) {n : Nat} {d : Int} {rest : List (Nat × Int)}
+    (hp : s.pending = (n, d) :: rest) (hstale : ∀ c, findChild s n = some c → c.timer ≠ some d) :
+    step s .runcb = { clearOut s with pending := rest } := by
+  show runCallback (clearOut s) = _
+  rw [runCallback_eq]
+  have hp' : (clearOut s).pending = (n, d) :: rest := hp
+  rw [hp']
+  simp only
+  have hfc : findChild (clearOut s) n = findChild s n := rfl
+  rw [hfc]
+  cases hf : findChild s n with
+  | none => rfl
+  | some c =>
+    simp only
+    rw [if_neg (hstale c hf)]
+
+/-- Hence: whenever a waiting callback changes anything, it is the callback of the child's CURRENT
+    timer and that timer's deadline has passed. -/
+theorem callback_acts_only_on_its_own_expired_timer {s : St} (hr : Reach s) {n : Nat} {d : Int} {rest : List (Nat × Int)}
+    (hp : s.pending = (n, d) :: rest) (hne : step s .runcb ≠ { clearOut s with pending := rest }) :
+    (∃ c, findChild s n = some c ∧ c.timer = some d) ∧ d ≤ s.now := by
+  refine ⟨?_, callbacks_wait_only_after_deadline hr (n, d) (by rw [hp]; exact List.mem_cons_self)⟩
+  cases hf : findChild s n with
+  | none => exact absurd (stale_callback_is_noop s hp (fun c hc => by rw [hf] at hc; cases hc)) hne
+  | some c =>
+    by_cases ht : c.timer = some d
+    · exact ⟨c, rfl, ht⟩
+    · exact absurd (stale_callback_is_noop s hp (fun c' hc => by rw [hf] at hc; injection hc with hc; subst hc; exact ht)) hne
+
+-- the interleaving: timer of 1 fires at 10000 and waits; 1 reports READY, IDLE, CONNECTING (new timer); the
+-- stale callback runs: 1 stays in use with its new timer, 2 is not started
+def race : List Op := [.update [1, 2] [(1, 0), (2, 0)], .child 1 1, .advance 10000, .dispatch 1, .child 1 2, .child 1 0, .child 1 1, .runcb]
+example : (run race).inUse = some 1 ∧ (run race).children.map (fun c => (c.started, c.timer)) = [(true, some 20000), (false, none)] := by decide
 
 -- non-vacuity: fail-over, fall-back and recovery on a concrete history
 def demo : List Op := [.update [1, 2, 3] [(1, 0), (2, 0), (3, 1)], .child 1 1, .child 1 3, .child 2 1, .advance 10000, .timer 2]
